@@ -246,6 +246,10 @@ var modelRedirects = map[string]string{
 	"github.com/golang/protobuf/proto.Marshal":        "ProtoMarshal",
 	"github.com/tinylib/msgp/msgp.UnsafeString":       "MsgpUnsafeString",
 	"github.com/cossacklabs/acra/utils.BytesToString": "MsgpUnsafeString",
+	"encoding/gob.NewEncoder":                         "GobNewEncoder",
+	"encoding/gob.NewDecoder":                         "GobNewDecoder",
+	"(*encoding/gob.Encoder).Encode":                  "GobEncode",
+	"(*encoding/gob.Decoder).Decode":                  "GobDecode",
 	"(*github.com/cossacklabs/acra/keystore/v2/keystore.SerializedKeys).Marshal":   "SerializedKeysMarshal",
 	"(*github.com/cossacklabs/acra/keystore/v2/keystore.SerializedKeys).Unmarshal": "SerializedKeysUnmarshal",
 	"github.com/golang/protobuf/proto.Unmarshal":                                   "ProtoUnmarshal",
